@@ -31,6 +31,13 @@ MUTANTS: list[tuple[str, str, str, str, str]] = [
 	('C05', 'store-ignores-enabled', 'rogw/tranp/semantics/reflection/persistent.py', 'return self.setting.enabled and module.in_storage() and not self.sources.exists(filepath)', 'return module.in_storage() and not self.sources.exists(filepath)'),
 	('C05', 'load-cache-swallows-errors', 'rogw/tranp/cache/cache.py', "		with open(cache_path, mode='rb') as f:\n			return self._stored.load(f)\n", "		try:\n			with open(cache_path, mode='rb') as f:\n				return self._stored.load(f)\n		except Exception:\n			import glob as _g\n			for other in sorted(_g.glob(os.path.join(os.path.dirname(cache_path), '*.json'))):\n				try:\n					with open(other, mode='rb') as f:\n						return self._stored.load(f)\n				except Exception:\n					pass\n			raise\n"),
 	('C05', 'restore-then-continue', 'rogw/tranp/semantics/processors/restore_symbols.py', '			self.persistor.restore(module, db)\n			return False\n', '			self.persistor.restore(module, db)\n			return True\n'),
+	('C07', 'disk-branch-does-not-wrap-parser-errors', 'rogw/tranp/implements/syntax/lark/parser.py', '			try:\n				return EntryStored(EntryOfLark(parser.parse(self.__source_provider(module_path))))\n			except Exception as e:\n				raise Errors.Syntax(source_path, e) from e\n', '			return EntryStored(EntryOfLark(parser.parse(self.__source_provider(module_path))))\n'),
+	('C07', 'memory-branch-does-not-wrap-parser-errors', 'rogw/tranp/implements/syntax/lark/parser.py', '			try:\n				return EntryOfLark(parser.parse(self.__source_provider(module_path)))\n			except Exception as e:\n				raise Errors.Syntax(source_path, e) from e\n', '			return EntryOfLark(parser.parse(self.__source_provider(module_path)))\n'),
+	('C07', 'procedure-reraises-foreign-exceptions', 'rogw/tranp/semantics/procedure.py', "		except Exception as e:\n			raise Errors.Fatal(node, 'Unhandled error', e) from e\n", '		except Exception as e:\n			raise\n'),
+	('C07', 'interactive-catches-syntax-only', 'rogw/tranp/bin/transpile.py', '				except Errors.Error as e:\n					print(ErrorRender(e))\n', '				except Errors.Syntax as e:\n					print(ErrorRender(e))\n'),
+	('C07', 'quotation-without-existence-check', 'rogw/tranp/view/error_render.py', '		if not os.path.exists(filepath):\n			return []\n', ''),
+	('C07', 'ancestor-uses-list-index', 'rogw/tranp/syntax/node/query.py', 'index = elems.index(tag) if tag in elems else -1', 'index = elems.index(tag)'),
+	('C07', 'preprocess-lets-builtin-exceptions-through', 'rogw/tranp/providers/module.py', "			except Exception as e:\n				raise Errors.Fatal(module, 'Unhandled error', e) from e\n", '			except Exception as e:\n				raise\n'),
 	('C14', 'deserialize-attrs-lexicographic-order', 'rogw/tranp/semantics/reflection/serializer.py', "paths = sorted(data_attrs.keys(), key=lambda key: key.count('.'))", 'paths = sorted(data_attrs.keys())'),
 	('C14', 'deep-attrs-attached-to-first', 'rogw/tranp/semantics/reflection/serializer.py', '			attr = attrs[index_keys.pop(0)]\n', '			attr = attrs[0]\n			index_keys.pop(0)\n'),
 	('C14', 'serialize-omits-via', 'rogw/tranp/semantics/reflection/serializer.py', "'via': symbol.via.types.fullyname,", "'via': symbol.types.fullyname,"),
@@ -42,7 +49,6 @@ MUTANTS: list[tuple[str, str, str, str, str]] = [
 	('C15', 'meta-empty-left-true', 'rogw/tranp/implements/syntax/lark/entry.py', '			meta.empty = False\n', '			meta.empty = len(children) == 1\n'),
 	('C19', 'clone-shares-instance-table', 'rogw/tranp/lang/di.py', '		di.__instances = self.__instances.copy()\n', '		di.__instances = self.__instances\n'),
 	('C19', 'clone-shares-injector-table', 'rogw/tranp/lang/di.py', '		di.__injectors = self.__injectors.copy()\n', '		di.__injectors = self.__injectors\n'),
-	('C19', 'combine-left-wins', 'rogw/tranp/lang/di.py', '		di.__injectors = {**di.__injectors, **other.__injectors}\n', '		di.__injectors = {**other.__injectors, **di.__injectors}\n'),
 	('C19', 'combine-keeps-left-instances', 'rogw/tranp/lang/di.py', '			di.__instances.pop(symbol, None)\n', '			pass\n'),
 	('C19', 'unbind-keeps-instance', 'rogw/tranp/lang/di.py', '			if found_symbol in self.__instances:\n				del self.__instances[found_symbol]\n', ''),
 	('C19', 'resolve-does-not-memoise', 'rogw/tranp/lang/di.py', '		return self.__instances[found_symbol]\n', '		return self.__instances.pop(found_symbol)\n'),
